@@ -24,6 +24,10 @@ type SOp struct {
 	// fails (-1: none). Part: the walk stops one element early instead.
 	Fail int
 	Part bool
+	// Dead: the operation is issued with a context that is already
+	// cancelled. The session may carry it out regardless or refuse it
+	// without any effect.
+	Dead bool
 }
 
 func fidStr(f p9p.Fid) string {
@@ -46,6 +50,9 @@ func (o SOp) String() string {
 		s = fmt.Sprintf("create(%s,%q,%#x,%#x)", fidStr(o.Fid), o.Name, o.Perm, uint8(o.Mode))
 	default:
 		s = fmt.Sprintf("%s(%s)", o.Kind, fidStr(o.Fid))
+	}
+	if o.Dead {
+		s += "[ctx already cancelled]"
 	}
 	if o.Fail >= 0 {
 		if o.Part {
